@@ -162,13 +162,13 @@ CHECKS = {
 ADDENDA = {
     "C01": "Extended: hosted did:web issuers; key-history grid on a second node (did:nuts + did:web; v1 key1, v2 +key2, v3 -key1, deactivated) at validation times inside the recorded version intervals; credentialStatus arrays over an alphabet of entries (unusable lists, other purposes, unknown types); re-verification after list re-issue and node restart. Round 5: validity-window grid (harness-signed ldp/jwt VPs and VCs and wallet-built VPs with start/end from Go zero time, epoch, past, future, year 9999, absent; four validation times x three routes; valid outside the window = violation); revocation-lookup faults on a did:nuts node with network revocations (store lookup failing at a hook in five ways incl. the real store closed, six routes) and issuer-document faults (seven ways).",
     "C02": "Extended: late replay in the skew tail, scope lists, backdated over-long validity, audiences that extend/truncate/re-case this server's identifier, two-presentation assertions (accepted controls, 10 defects on the mapped or the other presentation, both orders). Round 5: OpenID4VP wallet-response leg - the real authorization-code flow runs until the node's own wallet posts to the verifier's direct_post endpoint, the proxy withholds that post and the harness plays the wallet (did:jwk holders, jwt_vp and ldp_vp over the session's real nonce/state): 3 controls and 72 distinct single defects (nonce/state of another, finished or unknown session, audience, signer != subject, non-matching or revoked/expired credential, forged/permuted/empty descriptor map, tampered signatures, other subject's endpoint, second use, two-presentation arrays in both orders), one fresh session each; a defective response must never lead to a token at the token endpoint or a token-store write.",
-    "C03": "Extended: private half of every held key family x 5 header forms x 12 signing entry points; kid life-cycle programs (create, warm up, re-point by Link/New/Delete also inside committed and rolled-back SQL transactions, use again) on two key stores with a harness-kept designation table.",
+    "C03": "Extended: private half of every held key family x 5 header forms x 12 signing entry points; kid life-cycle programs (create, warm up, re-point by Link/New/Delete also inside committed and rolled-back SQL transactions, use again) on two key stores with a harness-kept designation table. Round 6: key-id relatives - 8 families of held ids x ~130 unregistered textual relatives each (percent decoded/encoded/hex-case/double-encoded, case, white space, unicode, fragment, affix, sql, separator) requested through 9 signing/decrypting entry points (Go and HTTP, two path escapings): must be refused, or served with the key published for exactly the requested id.",
     "C04": "Extended: hostile path-parameter values on parameterised routes in every tier, deferred calibration judgement. Round 5: presentation sequences (short-lived tokens presented repeatedly while valid, failing credentials derived from a just-accepted one, six presentations after expiry on a monotonic stopwatch) and 12 listener configurations (http.internal.address empty/blank/unset/:0/no port via env, file, flag) booted through cmd.Execute with the public listener probed.",
     "C05": "Extended: store-fault enumeration below the session database (every backend operation of a presentation lost or answered with an error, single and outage-spanning, also steered two-actor), volume phase (1 000 ... 262 144 live entries between use and replay).",
     "C06": "Extended: every third valid offer is first made to fail in the store (commit refused, caller gone, n-th Put failing) and the full snapshot incl. reported clock compared. Round 5: young-DAG matrix - format version {1,2} x key family {P-256,P-384,P-521,RSA} x private/resolver; every variant class (158, incl. mandatory headers removed with/without their crit entry and further retypes) offered to the root of an empty DAG and to the first child.",
     "C08": "Extended: repair on 513/1025-transaction chains.",
     "C09": "Extended: id text-extension rules, percent-escaped thumbprint, byte-for-byte republication by an outsider, publicKeyJwk declaring its own kid, RSA and Ed25519 verification methods. Round 5: 19 uniqueness rules with realistic mixed-case service types/ids in seven arrangements; update-style transactions for DIDs no version of which is known (4 target kinds x 9 payload shapes x prev choices) followed by the rightful creation.",
-    "C11": "Extended: signed revocations (genuine + 7 forgeries, hosted did:web), re-issue racing revocations, stored lists aged (document and expiry column) to 20 min left / 1 h / 5 h past expiry. Round 5: SQL fault enumeration below the status-list store (gorm callbacks on the node's DB + SQLite ABORT triggers over every statement of revoke/issue/roll-over/serve; what the node reported must show afterwards); multi-entry credentialStatus arrays (revoked entry at every position of 2-4 entries x 14 neighbour kinds).",
+    "C11": "Extended: signed revocations (genuine + 7 forgeries, hosted did:web), re-issue racing revocations, stored lists aged (document and expiry column) to 20 min left / 1 h / 5 h past expiry. Round 5/6: every revoked-must-fail verdict also at 8 explicit validation times around issuance and revocation through 5 routes (signed network revocations and status-list revocations); SQL fault enumeration below the status-list store (gorm callbacks on the node's DB + SQLite ABORT triggers over every statement of revoke/issue/roll-over/serve; what the node reported must show afterwards); multi-entry credentialStatus arrays (revoked entry at every position of 2-4 entries x 14 neighbour kinds).",
     "C12": "Extended: same-id and id-less twin credentials with the map forged at the twin; typeless filters refuted by the reference, edge batch of filter vocabulary (enum+pattern, enum+const), one-sided verifier probes on single-descriptor definitions.",
     "C13": "Extended: node configurations with one method and a mid-sequence upgrade, single-change and no-op operations, failing clean-up transaction, operations on deactivated subjects, 8 subject-name families with ~45 look-alike lookups per name and operations on names no subject has.",
     "C14": "Extended: must-refuse offers, offers failing in the store and repeated offers woven into every scenario; completions recorded by another party at three positions x five receiver outcomes; torn ledger tails ignored by shape. Round 5: single-operation fault matrix in the parent process (a decorating store fails exactly one Get/Put/Delete/Iterate/Range or the commit of every Add / Add-with-payload / WritePayload incl. the nested private write, each position in turn; unparsable job record; subscriber on another database): admitted => delivered or still replayable, not admitted => delivered to nobody.",
